@@ -48,7 +48,52 @@ BOUNDS = dict(
     cover=["return"],
 )
 
-CONTRACTS = [BOUNDS]
+# ------------------------------------------------------------------------------------------------ GenerateActionMetaData.__next__: ids of generated bulk actions
+GAM = "GenerateActionMetaData."
+USED = "exists(lambda j: 0 <= j and j < old(self.id_up_to) and result[1] == {tpl} % self.conflicting_ids[j])"
+NEXT_META = dict(
+    target="esrally/track/params.py::GenerateActionMetaData.__next__",
+    prop="C03",
+    self_type="obj[GenerateActionMetaData]",
+    fields={GAM + "conflicting_ids": "opt[list[str]]", GAM + "conflict_probability": "real", GAM + "id_up_to": "int", GAM + "recency": "real", GAM + "on_conflict": "str",
+            GAM + "use_create": "bool", GAM + "meta_data_index_with_id": "str", GAM + "meta_data_update_with_id": "str", GAM + "meta_data_index_no_id": "str",
+            GAM + "meta_data_create_no_id": "str", GAM + "rand": "any", GAM + "randint": "any", GAM + "randexp": "any"},
+    consts={"GenerateActionMetaData.RECENCY_SLOPE": 30},
+    externals={
+        "self.rand": dict(returns="real", ensures=["0 <= result and result < 1"]),
+        "self.randint": dict(returns="int", ensures=["a0 <= result and result <= a1"]),
+        "self.randexp": dict(returns="real", ensures=["result >= 0"]),
+    },
+    requires=[
+        "implies(self.conflicting_ids is not None, 0 <= self.id_up_to and self.id_up_to <= len(self.conflicting_ids))",
+        "self.recency >= 0 and self.conflict_probability >= 0",
+        "implies(self.conflicting_ids is not None, len(self.conflicting_ids) <= 2**40)",  # float rounding model: ids far below 2^53
+    ],
+    modifies=["self"],
+    only_fields={"self": ["id_up_to"]},
+    returns="tuple[str,str]",
+    ensures=[
+        # without conflicting ids: a constant action without id
+        "implies(self.conflicting_ids is None, self.id_up_to == old(self.id_up_to) and result[0] == ('create' if self.use_create else 'index'))",
+        # with ids: EITHER the next unused id is consumed (each id is handed out exactly once, in order) ...
+        "implies(self.conflicting_ids is not None and self.id_up_to == old(self.id_up_to) + 1, result[0] == 'index' and result[1] == self.meta_data_index_with_id % self.conflicting_ids[old(self.id_up_to)])",
+        # ... OR a conflict is simulated: the action targets an id that HAS ALREADY BEEN USED (index below id_up_to), never a fresh or unused one
+        "implies(self.conflicting_ids is not None and self.id_up_to == old(self.id_up_to), old(self.id_up_to) > 0 and result[0] == self.on_conflict and "
+        f"(({USED.format(tpl='self.meta_data_index_with_id')}) or ({USED.format(tpl='self.meta_data_update_with_id')})))",
+        "self.id_up_to == old(self.id_up_to) or self.id_up_to == old(self.id_up_to) + 1",
+    ],
+    raises={
+        "StopIteration": dict(ensures=["self.conflicting_ids is not None and old(self.id_up_to) >= len(self.conflicting_ids) and self.id_up_to == old(self.id_up_to)"]),
+        "RallyAssertionError": dict(ensures=["self.on_conflict != 'index' and self.on_conflict != 'update'"]),
+    },
+    float="round",
+    cover=["return", "raise:StopIteration"],
+)
+
+# readers are positioned through the line-offset table: the table build / lookup / skip contracts of C14, claimed here too
+from contracts.C14 import BUILD_TABLE, FIND_CLOSEST, SKIP_LINES  # noqa: E402
+
+CONTRACTS = [BOUNDS, NEXT_META] + [dict(c, prop="C03") for c in (BUILD_TABLE, FIND_CLOSEST, SKIP_LINES)]
 ASSUMPTIONS = [
     "float rounding model for bounds(): fl(x)=x(1+d), |d|<=2^-53, monotone, exact on integers up to 2^53; round() = round-half-even; total_docs <= 10^12, clients <= 2^20",
 ]
@@ -57,3 +102,11 @@ NOT_DECIDED = [
     "order in which co-located clients call params()",
 ]
 TRUSTED = []
+
+
+def extra_checks(runner, ev):
+    """BOUNDED stand-in (never counted as proved): offset table == line-by-line skipping on real files incl. multi-byte content."""
+    from pyvc.run import bounded_check
+
+    return bounded_check(ev, "C03", "C03_offsets.py", "io.prepare_file_offset_table + io.skip_lines vs skipping lines one by one (real files)", "esrally/utils/io.py::prepare_file_offset_table")
+
